@@ -179,6 +179,14 @@ func (eval Evaluator) MultiplyByDiagMatrix(ctIn *rlwe.Ciphertext, matrix LinearT
 		keys = keys[1:]
 	}
 
+	if state && len(keys) == 0 {
+		// Only the main diagonal: there is no rotated term to accumulate (the accumulators below
+		// are initialised by the first of them), opOut = ctIn * plaintext.
+		ringQ.MulCoeffsMontgomery(matrix.Vec[0].Q, ctInTmp0, opOut.Value[0])
+		ringQ.MulCoeffsMontgomery(matrix.Vec[0].Q, ctInTmp1, opOut.Value[1])
+		return
+	}
+
 	for i, k := range keys {
 
 		k &= (slots - 1)
